@@ -8,7 +8,11 @@
                           session has priority over the stored private query; login
                           rewriting only for the public one; parseSearchQuery; empty
                           reading = 400; masked-namespace gate against Topic.tags = 403;
-                          store.Users.FindSubs(asUid, req, opt, authLvl != root));
+                          store.Users.FindSubs(asUid, req, opt, sess.authLvl != auth.LevelRoot)
+                          - sess.authLvl is an int (auth.Level): every value other than
+                          LevelRoot = 30, i.e. LevelNone 0 (a session object that was never given a
+                          level), LevelAnon 10 (anonymous-scheme account), LevelAuth 20 and any
+                          other number, searches active rows only);
                           2505-2680 ({meta sub} / 204 no content)
                           replySetDesc, case TopicCatFnd 2234-2243, 2268, 2319-2322
                           (mergeInterfaces on strings, fndSetPublic called with
@@ -61,11 +65,19 @@ Record fnd_c19 := mkFndC19 {
   f_private : option query_c19       (* perUser[uid].private = subscriptions.private of the fnd row *)
 }.
 
+(* server/auth/auth.go 17-26: LevelNone Level = iota * 10, LevelAnon, LevelAuth, LevelRoot *)
+Definition level_none_c19 : Z := 0.
+Definition level_anon_c19 : Z := 10.
+Definition level_auth_c19 : Z := 20.
+Definition level_root_c19 : Z := 30.
+
 Record sess_c19 := mkSessC19 {
   s_id : N;
-  s_root : bool;                     (* sess.authLvl == auth.LevelRoot *)
+  s_lvl : Z;                         (* sess.authLvl (auth.Level is an int: ANY value) *)
   s_cc : tag                         (* sess.countryCode *)
 }.
+(* sess.authLvl == auth.LevelRoot *)
+Definition s_root (s : sess_c19) : bool := (s_lvl s =? level_root_c19)%Z.
 
 Record fcfg_c19 := mkFcfgC19 {
   fc_masked : list tag;              (* globals.maskedTagNS *)
@@ -174,7 +186,8 @@ Section FndSearchC19.
              else if negb (masked_gate is_letter is_number (f_tags t) (concat req ++ opt) (fc_masked c))
              then (FCtrl 403, None)                   (* attempt to search by restricted tags *)
              else
-               let active := negb (s_root s) in
+               (* sess.authLvl != auth.LevelRoot *)
+               let active := negb (s_lvl s =? level_root_c19)%Z in
                let subs := find_subs_c19 (fc_self c) req opt active (fc_world c) in
                (match subs with [] => FCtrl 204 | _ => FMeta (map cd_id subs) end,
                 Some (mkCallC19 req opt active))
